@@ -252,6 +252,73 @@ pub fn draw_char(t: &mut Tape) -> char {
 /// percent-escapes in both hex cases, ucschar / iprivate characters, IPv4/IPv6 hosts, userinfo,
 /// ports, empty segments and dot segments. (Whether the toolkit's validator agrees with the
 /// RFC is C09's business; here these IRIs are workload for parsers, serializers and stores.)
+/// IRIs that serializers, parsers and stores treat specially (shorthands, keywords, elided
+/// datatypes, list vocabulary ...).
+pub const WELL_KNOWN: &[&str] = &[
+    "http://www.w3.org/2001/XMLSchema#string",
+    "http://www.w3.org/2001/XMLSchema#integer",
+    "http://www.w3.org/2001/XMLSchema#decimal",
+    "http://www.w3.org/2001/XMLSchema#double",
+    "http://www.w3.org/2001/XMLSchema#boolean",
+    "http://www.w3.org/1999/02/22-rdf-syntax-ns#langString",
+    "http://www.w3.org/1999/02/22-rdf-syntax-ns#type",
+    "http://www.w3.org/1999/02/22-rdf-syntax-ns#nil",
+    "http://www.w3.org/1999/02/22-rdf-syntax-ns#first",
+    "http://www.w3.org/1999/02/22-rdf-syntax-ns#rest",
+    "http://www.w3.org/1999/02/22-rdf-syntax-ns#List",
+    "http://www.w3.org/1999/02/22-rdf-syntax-ns#JSON",
+    "http://www.w3.org/1999/02/22-rdf-syntax-ns#XMLLiteral",
+    "http://www.w3.org/1999/02/22-rdf-syntax-ns#value",
+    "http://www.w3.org/1999/02/22-rdf-syntax-ns#li",
+    "http://www.w3.org/1999/02/22-rdf-syntax-ns#_1",
+];
+
+/// A near miss of a well-known IRI: same namespace and same ending, same beginning and longer,
+/// one character short, other case. Code that recognises a well-known IRI by anything less
+/// than equality (prefix, suffix, case-insensitive or split comparison) confuses the two.
+pub fn near_miss(t: &mut Tape) -> String {
+    let w = WELL_KNOWN[t.below(WELL_KNOWN.len())];
+    let cut = w.rfind('#').map_or(w.len(), |i| i + 1);
+    let (ns, local) = w.split_at(cut);
+    match t.draw(6) {
+        0 => format!("{ns}x{local}"),
+        1 => format!("{ns}my-{local}"),
+        2 => format!("{w}2"),
+        3 => format!("{w}s"),
+        4 => {
+            let mut cs = local.chars();
+            let first = cs.next().unwrap_or('x');
+            let flipped = if first.is_uppercase() { first.to_ascii_lowercase() } else { first.to_ascii_uppercase() };
+            format!("{ns}{flipped}{}", cs.as_str())
+        }
+        _ => w[..w.len() - 1].to_string(),
+    }
+}
+
+/// A blank node label drawn by character class from the BLANK_NODE_LABEL production shared by
+/// N-Triples, Turtle and TriG: `(PN_CHARS_U | [0-9]) ((PN_CHARS | '.')* PN_CHARS)?` (without
+/// ':', which only N-Triples admits). Every pair "class after class" can occur, in particular
+/// the characters that are PN_CHARS but not PN_CHARS_U right after a dot.
+pub fn draw_bnode_label(t: &mut Tape) -> String {
+    // PN_CHARS_U | [0-9]
+    const START: &[&str] = &["a", "Z", "_", "0", "7", "\u{c0}", "\u{e9}", "\u{37f}", "\u{200c}", "\u{2070}", "\u{3001}", "\u{4e2d}", "\u{fdf0}", "\u{10000}", "\u{effff}"];
+    // PN_CHARS \ (PN_CHARS_U | [0-9])
+    const ONLY_INNER: &[&str] = &["-", "\u{b7}", "\u{300}", "\u{36f}", "\u{203f}", "\u{2040}"];
+    let mut s = START[t.below(START.len())].to_string();
+    let n = t.below(5);
+    for i in 0..n {
+        let last = i + 1 == n;
+        match t.draw(4) {
+            // (no two dots in a row: the W3C grammar allows "a..a", but the toolkit's validator
+            // and its parser dependency both refuse it, so no dataset can hold such a label)
+            0 if !last && !s.ends_with('.') => s.push('.'),
+            1 => s.push_str(ONLY_INNER[t.below(ONLY_INNER.len())]),
+            _ => s.push_str(START[t.below(START.len())]),
+        }
+    }
+    s
+}
+
 pub fn draw_iri(t: &mut Tape) -> String {
     fn chunk(t: &mut Tape, extra: &[&str]) -> String {
         const COMMON: &[&str] = &[
@@ -357,7 +424,10 @@ pub fn draw_literal(t: &mut Tape, p: &Profile) -> MTerm {
     }
     match t.below(3) {
         0 => MTerm::Lit(lex, XSD_STRING.to_string()),
-        1 => MTerm::Lit(lex, DT_POOL[t.below(DT_POOL.len())].to_string()),
+        1 => {
+            let dt = if t.chance(1, 10) { near_miss(t) } else { DT_POOL[t.below(DT_POOL.len())].to_string() };
+            MTerm::Lit(lex, dt)
+        }
         _ => {
             // terms are built through the validating constructors: keep only tags they accept
             // (C08 feeds the same pool to the parsers as raw text, unfiltered)
@@ -371,6 +441,9 @@ pub fn draw_literal(t: &mut Tape, p: &Profile) -> MTerm {
 impl Alphabet {
     pub fn draw(t: &mut Tape, p: &Profile) -> Self {
         let mut iris = draw_subset(t, IRI_POOL, 2, 6);
+        if t.chance(1, 8) {
+            iris.push(near_miss(t));
+        }
         if t.chance(1, 64) {
             // a very long IRI (data:-like): one token far beyond any internal buffer
             let n = [4096usize, 5000, 9000][t.below(3)];
@@ -386,7 +459,15 @@ impl Alphabet {
                 }
             }
         }
-        let bnodes = draw_subset(t, BNODE_POOL, 1, p.max_bnodes.max(1));
+        let mut bnodes = draw_subset(t, BNODE_POOL, 1, p.max_bnodes.max(1));
+        if t.chance(1, 4) {
+            // one label drawn by character class instead of taken from the pool
+            let l = draw_bnode_label(t);
+            if !bnodes.contains(&l) {
+                let k = t.below(bnodes.len());
+                bnodes[k] = l;
+            }
+        }
         let nl = t.range(1, 5);
         let lits = (0..nl).map(|_| draw_literal(t, p)).collect();
         let mut graphs: Vec<Option<MTerm>> = vec![None];
